@@ -49,3 +49,9 @@ const (
 	ClassFault = vsched.ClassFault
 	ClassCrash = vsched.ClassCrash
 )
+
+// Quiesce lets every other thread run until it finishes or blocks.
+func Quiesce() { vsched.Quiesce() }
+
+// LiveLibThreads counts library goroutines that have not exited.
+func LiveLibThreads() int { return vsched.LiveLibThreads() }
